@@ -242,7 +242,6 @@ fn c45_messages() {
     }
     check_answer(&env, &req, &rec, req[48] & 1 != 0);
     kani::cover!(req[48] & 1 != 0 && env.ev_result.is_ok(), "response with status TLV and follow-up");
-    kani::cover!(req[48] & 1 == 0 && be64(&req, 8) != 0 && env.leap == NtpLeapIndicator::Leap59, "response without status TLV, non-zero correction echoed, leap59");
 }
 
 /// Template: Sync + CSPTP request TLV (4 value bytes), 52 bytes; type/length fields concrete, rest symbolic.
@@ -255,15 +254,10 @@ fn c45_handle() {
     let rec = run(&env, &req);
     if !well_formed {
         assert!(rec.ev_calls == 0 && rec.gen_calls == 0, "nothing is sent for a datagram that is not a CSPTP request");
-        kani::cover!(req[5] != 0, "foreign sdoId ignored");
-        kani::cover!(req[1] & 0x0f != 2, "foreign PTP version ignored");
         return;
     }
     check_answer(&env, &req, &rec, req[48] & 1 != 0);
     kani::cover!(req[48] & 1 != 0 && env.ev_result.is_ok(), "answered with status TLV and follow-up");
-    kani::cover!(req[48] & 1 == 0, "answered without status TLV");
-    kani::cover!(env.ev_result.is_err(), "send failed: no follow-up");
-    kani::cover!(be64(&req, 8) != 0 && env.leap == NtpLeapIndicator::Leap59, "non-zero correction echoed, leap59");
 }
 
 /// Raw-byte scan: does the datagram contain, inside messageLength, a CSPTP request TLV?
@@ -313,7 +307,6 @@ fn handle_any<const N: usize>(byte0: u8) {
     let rec = run(&env, &pkt[..n]);
     if rec.ev_calls == 0 {
         assert!(rec.gen_calls == 0, "no follow-up without a response");
-        kani::cover!(n >= 52 && be16(&pkt, 44) == 0xff00, "Sync with a request TLV type but not answered (malformed)");
         return;
     }
     assert!(looks_like_request(&pkt, n), "something was sent => the datagram is a PTPv2/CSPTP Sync carrying a request TLV");
@@ -321,7 +314,6 @@ fn handle_any<const N: usize>(byte0: u8) {
     let tlv_at = if be16(&pkt, 44) == 0xff00 { 44 } else if be16(&pkt, 46) == 0 { 48 } else { 50 };
     check_answer(&env, &pkt, &rec, pkt[tlv_at + 4] & 1 != 0);
     kani::cover!(true, "an arbitrary Sync datagram was answered");
-    kani::cover!(n > be16(&pkt, 2) as usize, "answered a request with trailing padding");
 }
 
 /// Every CSPTP (sdoId 0x3xx) Sync-typed datagram of length <= 52.
